@@ -26,6 +26,12 @@ CHECKS = {
  "C07": ("controlled cooperative scheduler + DFS over all thread interleavings up to a preemption bound (iterative context bounding) and exhaustive enumeration of sequential call histories, on the real Expr",
          "11 shared compiled programs covering every evaluator branch; every sequential history of {Eval x bindings, TryEval x splits, Dump, DumpTable} up to depth 4 (5), and every interleaving of 2x1, 2x2 and 3x1 thread/call shapes up to 3/2 (5/3) preemptions with scheduling points at every fetcher/operator callback and call boundary: each call's outcome (value, error, ordered trace, argument stability across a yield) equals its isolated outcome and the public view of the program never changes; auxiliary free-running race-detector pass.",
          "Scheduling granularity is the environment callback; sub-callback races are left to the race-detector pass and the post-call program comparison; preemption-bounded, not all schedules.", "4 C07"),
+ "C08": ("exhaustive enumeration of Compile / copy call histories over shared caller configs plus controlled-scheduler exploration of concurrent Compile calls, on the real code",
+         "Three caller configs x 11 sources: every history of Compile(config_i, source_j) up to depth 3 (4) leaves every config's public contents unchanged and yields the same program (error text / Dump / DumpTable / behaviour) as the same call made first on fresh equal configs; every CopyConfig/ExtendConf chain up to depth 3 followed by every single mutation on either side leaves the other side unchanged; every interleaving of 2 (unbounded) and 3 (preemption bound 2 / 4) concurrent Compile calls at the stateless-operator callbacks; auxiliary race-detector pass.",
+         "Config contents are drawn from three hand-built configs; scheduling points inside Compile exist only at callbacks into the environment.", "4 C08"),
+ "C12": ("stateless exhaustive program-space exploration with events read after the evaluation, plus controlled-scheduler enumeration of consumer timings",
+         "Every program <=6 (7) nodes over an alphabet with unary/binary/ternary registered operators x 16 subsets x {ReportEvent, Debug} x every binding incl. failures x {Eval, TryEval}: results and Dump equal the event-free compilation; OP_EXEC events of registered operators equal the harness's call log, those of builtins equal R1's application sequence on the Dump tree, every event is truthful, LOOP positions strictly increase, no two events share slice memory; consumer thread under the scheduler takes events at every callback point (preemption bound 4 / 8): contents never depend on timing and never change after delivery.",
+         "IsFastOp and the exact set of LOOP events are not asserted; consumer timings below callback granularity are represented by read-at-end (exhaustive) and a scribbling synchronous consumer (auxiliary).", "4 C12"),
 }
 
 NOT_YET = {}
